@@ -253,3 +253,27 @@ Proof.
   intros qs. rewrite query_eq. unfold forms_urlencoded, latin1_dec, parse_qsl_pairs, parse_qsl_into.
   rewrite !run_spec. cbn [qres_of]. rewrite fold_add_pair, fold_add_group. auto.
 Qed.
+
+(* ---- parse_qsl(qs, append=acc.append) on a list that already holds something ---- *)
+Lemma qsl_spec_urlencode ps :
+  (forall k v, In (k, v) ps -> k <> [] /\ Forall scalar k /\ Forall scalar v) ->
+  qsl_spec (urlencode ps) = ps /\ qsl_spec (urlencode_q ps) = ps.
+Proof.
+  intros H. destruct (C18_roundtrip_lemma ps H) as (_ & _ & A & _ & _ & B).
+  destruct (C18_scanner_lemma (urlencode ps)) as (A' & _). destruct (C18_scanner_lemma (urlencode_q ps)) as (B' & _).
+  rewrite A' in A. rewrite B' in B. injection A as A. injection B as B. auto.
+Qed.
+
+Lemma C18_append_mode_lemma :
+  forall (l0 : list (str * str)),
+    (forall qs, qsl_run add_pair qs l0 = Some (l0 ++ qsl_spec qs))
+    /\ (forall ps, (forall k v, In (k, v) ps -> k <> [] /\ Forall scalar k /\ Forall scalar v) ->
+                   qsl_run add_pair (urlencode ps) l0 = Some (l0 ++ ps)
+                   /\ qsl_run add_pair (urlencode_q ps) l0 = Some (l0 ++ ps)).
+Proof.
+  intros l0.
+  assert (G : forall qs, qsl_run add_pair qs l0 = Some (l0 ++ qsl_spec qs))
+    by (intros qs; rewrite run_spec, fold_add_pair; reflexivity).
+  split; [exact G|]. intros ps H. destruct (qsl_spec_urlencode ps H) as [A B].
+  rewrite !G, A, B. auto.
+Qed.
